@@ -57,8 +57,8 @@ def _stub_names():
     return sorted({n for (_, n, _) in Pure.tab.values() if n.split("_")[0] in ("FLUX1", "FLUX2") or n[:4] in ("HVAP", "PERM", "COOL") or n[:2] == "CP" or n in ("EXP", "LOG")})
 
 
-def scale(job, kind, mode, tier):
-    Ns = N_TIER[tier]
+def scale(job, kind, mode, tier, Ns=None):
+    Ns = tuple(Ns) if Ns else N_TIER[tier]
     job.bound(process_steps_N=list(Ns))
     job.stub("FLUX(all arguments) for calculate_partial_fluxes", "PERM_i(T)", "HVAP_i(T), CP_i(T), COOL_i(t0,t1)", "find_best_fit -> symbolic function", "EA_i")
     job.assume("k > 0", "Composition validator and Permeance clamp as assumptions", "denominators non-zero")
@@ -165,4 +165,8 @@ JOB_TIMEOUT = {"quick": 500, "thorough": 3000}
 
 
 def jobs(tier):
-    return [("%s_%s" % (proc.SHORT[k], mode), "scale", {"kind": k, "mode": mode, "tier": tier}) for k in proc.KINDS for mode in proc.MODES]
+    js = [("%s_%s" % (proc.SHORT[k], mode), "scale", {"kind": k, "mode": mode, "tier": tier}) for k in proc.KINDS for mode in proc.MODES]
+    # one-step runs as jobs of their own: decided in seconds even when a change makes the longer explorations blow up (a job that exceeds
+    # its time budget loses all its obligations)
+    js += [("%s_%s_N1" % (proc.SHORT[k], mode), "scale", {"kind": k, "mode": mode, "tier": tier, "Ns": [1]}) for k in proc.KINDS for mode in proc.MODES]
+    return js
